@@ -96,6 +96,30 @@ type c16Cache struct {
 	lnClosed   bool
 }
 
+// c16Listen opens a loopback listener (infrastructure). want is "" for an IPv4 address of the
+// cache's own out of 127.0.0.0/8 - so that the cases of a run (and other jobs on the machine) do
+// not compete for the ephemeral ports of 127.0.0.1 -, "v6" for [::1], or a literal address to
+// share with another cache. A failed bind is retried on further addresses; ar is a PRNG of its
+// own, so retries never shift the case's event stream.
+func c16Listen(ar *rand.Rand, want string) (net.Listener, error) {
+	var last error
+	for try := 0; try < 8; try++ {
+		la := want
+		switch {
+		case want == "v6" && try < 2:
+			la = "::1"
+		case want == "" || want == "v6" || try >= 3:
+			la = fmt.Sprintf("127.%d.%d.%d", 1+ar.IntN(250), ar.IntN(256), 2+ar.IntN(250))
+		}
+		ln, err := net.Listen("tcp", net.JoinHostPort(la, "0"))
+		if err == nil {
+			return ln, nil
+		}
+		last = err
+	}
+	return nil, last
+}
+
 func (c *c16Cache) acceptLoop() {
 	for {
 		conn, err := c.ln.Accept()
@@ -809,7 +833,7 @@ func (d *c16Drv) compare() {
 
 var c16WBHosts = []string{"127.0.0.1:1", "127.0.0.1:2", "127.0.0.2:1", "[::1]:1"}
 
-var c16RecPrefixes = []string{"10.0.0.0/8", "10.1.0.0/16", "10.1.2.0/24", "10.1.2.0/24", "192.168.0.0/16", "0.0.0.0/0", "203.0.113.7/32",
+var c16RecPrefixes = []string{"10.0.0.0/8", "10.0.0.0/16", "10.0.0.0/24", "2001:db8::/48", "10.1.0.0/16", "10.1.2.0/24", "10.1.2.0/24", "192.168.0.0/16", "0.0.0.0/0", "203.0.113.7/32",
 	"2001:db8::/32", "2001:db8:1::/48", "2001:db8:1::/48", "::/0", "2001:db8::1/128"}
 
 func c16RecPool(r *rand.Rand) []c16R {
@@ -826,6 +850,48 @@ func c16RecPool(r *rand.Rand) []c16R {
 	return out
 }
 
+// c16NearMiss derives a record that differs from x in exactly one field: same base address with
+// another prefix length (max-length and AS kept whenever the PDU stays well-formed), same prefix
+// with another max-length, or same prefix with another AS. Withdrawing such a record must leave x
+// alone, whether x is installed or still buffered.
+func c16NearMiss(r *rand.Rand, x c16R) c16R {
+	top := x.pfx.Addr().BitLen()
+	y := x
+	switch r.IntN(4) {
+	case 0, 1:
+		for tries := 0; tries < 8; tries++ {
+			nb := r.IntN(top + 1)
+			if int(x.maxLen) > x.pfx.Bits() && r.IntN(3) != 0 {
+				nb = x.pfx.Bits() + 1 + r.IntN(int(x.maxLen)-x.pfx.Bits()) // longer, max-length still fits
+			}
+			p := netip.PrefixFrom(x.pfx.Addr(), nb)
+			if nb == x.pfx.Bits() || p.Masked().Addr() != x.pfx.Addr() {
+				continue
+			}
+			y.pfx = p
+			if int(y.maxLen) < nb {
+				y.maxLen = uint8(nb)
+			}
+			return y
+		}
+		fallthrough
+	case 2:
+		if x.pfx.Bits() == top {
+			y.as = x.as + 1
+			return y
+		}
+		for y.maxLen == x.maxLen {
+			y.maxLen = uint8(x.pfx.Bits() + r.IntN(top-x.pfx.Bits()+1))
+		}
+	default:
+		y.as = c16Pick(r, []uint32{x.as + 1, 0, 65001, 65002, 4200000001})
+		if y.as == x.as {
+			y.as = x.as + 7
+		}
+	}
+	return y
+}
+
 func c16RTRCase(rec *vlib.Rec, idx int) {
 	r := vlib.CaseRand("c16rtr", idx)
 	rec.Eval()
@@ -837,13 +903,20 @@ func c16RTRCase(rec *vlib.Rec, idx int) {
 	go d.pump()
 
 	ncache := 1 + r.IntN(3)
+	ar := vlib.CaseRand("c16addr", idx)
 	var hosts []string
 	sim := map[string]*c16Cache{} // cache-side session id / serial, both transports
 	if d.tcp {
 		rec.Count("seq_tcp", 1)
 		for i := 0; i < ncache; i++ {
-			la := c16Pick(r, []string{"127.0.0.1:0", "127.0.0.1:0", "127.0.0.2:0", "[::1]:0"})
-			ln, err := net.Listen("tcp", la)
+			la := c16Pick(r, []string{"", "", "same", "v6"})
+			if la == "same" { // same address as another cache, other port
+				la = ""
+				if len(hosts) > 0 {
+					la = d.caches[hosts[len(hosts)-1]].addr
+				}
+			}
+			ln, err := c16Listen(ar, la)
 			if err != nil {
 				d.inconclusive("listen " + la + ": " + err.Error())
 				break
@@ -897,10 +970,23 @@ func c16RTRCase(rec *vlib.Rec, idx int) {
 		if !announce && len(known[h]) > 0 && r.IntN(4) != 0 {
 			x = c16Pick(r, known[h])
 		}
+		if len(known[h]) > 0 && r.IntN(4) == 0 { // differs in one field from something this cache announced
+			x = c16NearMiss(r, c16Pick(r, known[h]))
+			rec.Count("pdu_near_miss_of_announced_record", 1)
+		}
 		if announce {
 			known[h] = append(known[h], x)
 		}
 		return c16PrefixPDU(x, announce)
+	}
+	// withNearMiss follows an announcement (still buffered until End of Data) by the withdrawal of
+	// a record that shares all but one field with it.
+	withNearMiss := func(ps []c16PDU, odds int) []c16PDU {
+		if last := ps[len(ps)-1]; strings.HasPrefix(last.kind, "announce") && r.IntN(odds) == 0 {
+			rec.Count("pdu_near_miss_withdraw_of_pending", 1)
+			ps = append(ps, c16PrefixPDU(c16NearMiss(r, last.r), false))
+		}
+		return ps
 	}
 	nsteps := 8 + r.IntN(40)
 	for step := 0; step < nsteps && !d.broken; step++ {
@@ -918,7 +1004,7 @@ func c16RTRCase(rec *vlib.Rec, idx int) {
 			var ps []c16PDU
 			ps = append(ps, c16PDU{kind: "cache-response", sid: c.sid, data: c16Ser(rtr.NewRTRCacheResponse(c.sid))})
 			for i := r.IntN(6); i > 0; i-- {
-				ps = append(ps, prefixPDU(h, true))
+				ps = withNearMiss(append(ps, prefixPDU(h, true)), 6)
 			}
 			c.serial++
 			ps = append(ps, c16PDU{kind: "end-of-data", sid: c.sid, serial: c.serial, data: c16Ser(rtr.NewRTREndOfData(c.sid, c.serial))})
@@ -928,7 +1014,7 @@ func c16RTRCase(rec *vlib.Rec, idx int) {
 			var ps []c16PDU
 			ps = append(ps, c16PDU{kind: "cache-response", sid: c.sid, data: c16Ser(rtr.NewRTRCacheResponse(c.sid))})
 			for i := r.IntN(5); i > 0; i-- {
-				ps = append(ps, prefixPDU(h, r.IntN(2) == 0))
+				ps = withNearMiss(append(ps, prefixPDU(h, r.IntN(2) == 0)), 3)
 			}
 			c.serial++
 			ps = append(ps, c16PDU{kind: "end-of-data", sid: c.sid, serial: c.serial, data: c16Ser(rtr.NewRTREndOfData(c.sid, c.serial))})
@@ -989,6 +1075,35 @@ func c16RTRCase(rec *vlib.Rec, idx int) {
 				{kind: "truncated-prefix", data: c16RawHeader(rtr.RTR_IPV4_PREFIX, 0, 12, []byte{1, 8, 8, 0})},
 				bad,
 			})})
+		case k < 76 && h != "": // the cache restarts: connection lost, new session id, fewer records than before
+			kind = "cache-restart"
+			if d.tcp {
+				d.dropConn(h, true)
+				if d.caches[h] == nil || d.caches[h].conn == nil {
+					break
+				}
+			} else {
+				d.wbDisconnect(h)
+			}
+			c.sid += uint16(1 + r.IntN(3))
+			c.serial = uint32(r.IntN(5))
+			var keep []c16R
+			for _, x := range known[h] {
+				if r.IntN(2) == 0 {
+					keep = append(keep, x)
+				}
+			}
+			known[h] = nil
+			ps := []c16PDU{{kind: "cache-response", sid: c.sid, data: c16Ser(rtr.NewRTRCacheResponse(c.sid))}}
+			for _, x := range keep {
+				known[h] = append(known[h], x)
+				ps = append(ps, c16PrefixPDU(x, true))
+			}
+			if r.IntN(3) == 0 {
+				ps = append(ps, prefixPDU(h, true))
+			}
+			ps = append(ps, c16PDU{kind: "end-of-data", sid: c.sid, serial: c.serial, data: c16Ser(rtr.NewRTREndOfData(c.sid, c.serial))})
+			d.deliver(h, ps)
 		case k < 79: // connection loss
 			kind = "disconnect"
 			if d.tcp {
